@@ -1127,6 +1127,7 @@ def b_isinstance(eng, x, t):
             if n == 'dict' and isinstance(x, dict): return True
             if n == 'set' and isinstance(x, set): return True
             if n == 'bool' and isinstance(x, bool): return True
+            if n == 'slice' and isinstance(x, slice): return True
         elif isinstance(c, ClassVal):
             if isinstance(x, Obj) and x.cls is not None:
                 k = x.cls
@@ -1413,6 +1414,7 @@ BUILTINS['True'] = True
 BUILTINS['False'] = False
 BUILTINS['None'] = None
 BUILTINS['print'] = Builtin('print', lambda eng, *a, **k: None)
+BUILTINS['slice'] = Builtin('slice', lambda eng, *a: slice(*a))
 
 _np = {
     'array': np_array, 'zeros': np_zeros, 'ones': np_ones, 'dot': np_dot, 'argmax': np_argmax, 'argmin': np_argmin, 'sqrt': m_sqrt, 'sum': np_sum,
